@@ -1052,6 +1052,17 @@ func (x *Exec) dryBlock(st *State, fr *Frame, b *ssa.BasicBlock, pred *ssa.Basic
 				fmt.Fprintf(os.Stderr, "[dry] block %d of %s: %v\n", b.Index, relName(fr.fn), r)
 			}
 			x.dryEff.all = true
+			// the rest of the block was not visited: every local variable the function
+			// ever stores to may have been written
+			for _, bb := range fr.fn.Blocks {
+				for _, in := range bb.Instrs {
+					if s, ok := in.(*ssa.Store); ok {
+						if al, ok := s.Addr.(*ssa.Alloc); ok {
+							x.dryEff.locals[al] = true
+						}
+					}
+				}
+			}
 		}
 	}()
 	for _, ins := range b.Instrs {
